@@ -280,6 +280,20 @@ def run(ctx: Context, rep) -> None:
                       and isinstance(n.targets[0], ast.Subscript)]
             ok_dec = ok_dec and any(
                 ast.unparse(s.targets[0].slice) == f"{t1}.name" for s in stores)
+            # every value stored for an attribute went through decode_array
+            # (re-typing AND reshape): no fast path that stores the raw vector
+            raw = [s for s in stores if not any(
+                x is d for d in dec for x in ast.walk(
+                    norm.expand(to_dict, s.value)))
+                   and not any(ast.unparse(x.func).endswith("decode_array")
+                               for x in ast.walk(norm.expand(to_dict, s.value))
+                               if isinstance(x, ast.Call))]
+            for s in raw:
+                rep.ob("C15.decode", False, loc=to_dict.loc(s),
+                       where=to_dict.qualname, construct=short(s, 80),
+                       message="an attribute value is stored without "
+                       "decode_array (dtype and shape of the declaration are "
+                       "not applied)")
     rep.ob("C15.decode", ok_dec, loc=to_dict.loc(dec[0]) if dec else
            to_dict.loc(), where=to_dict.qualname,
            construct=short(dec[0], 100) if dec else "<none>",
@@ -301,6 +315,9 @@ _PM = "rust/src/parallel_map.rs"
 _EI = "rust/src/example_iteration.rs"
 _DI = "src/sedpack/io/dataset_iteration.py"
 SELFTESTS = [
+    dict(rule="C15.decode", name="uint8-fast-path-skips-decode", expect="fire", path=_DI,
+         old="                result[attribute.name] = IterateShardFlatBuffer.decode_array(",
+         new="                if attribute.dtype == \"uint8\":\n                    result[attribute.name] = np_bytes\n                    continue\n                result[attribute.name] = IterateShardFlatBuffer.decode_array("),
     dict(rule="C15.rot", name="send-to-next-worker", expect="fire", path=_PM,
          old="let _ = self.communication[self.now].send.send(self.iter.next());",
          new="let _ = self.communication[(self.now + 1) % self.communication.len()].send.send(self.iter.next());"),
